@@ -178,6 +178,11 @@ pub enum Step {
     DropContext,
     OpenStream(usize),
     AdvanceClock(u64),
+    /// Macro step (C11): a PRNG-driven history of `ops` identifier-consuming operations from
+    /// `clones` handle clones with at most `max_outstanding` unacknowledged, executed and
+    /// checked online (identifier uniqueness among outstanding operations). A pure function of
+    /// its parameters; the history is compacted as it goes so that 10^5 operations fit.
+    IdHistory { seed: u64, ops: u32, clones: usize, max_outstanding: usize },
 }
 
 impl Step {
@@ -204,6 +209,7 @@ impl Step {
             Step::DropContext => "DropContext",
             Step::OpenStream(_) => "OpenStream",
             Step::AdvanceClock(_) => "AdvanceClock",
+            Step::IdHistory { .. } => "IdHistory",
         }
     }
     pub fn is_fault(&self) -> bool {
